@@ -612,6 +612,96 @@ def _api_cases(usable):
     return out
 
 
+# ---------------------------------------------------------------------------------------------------------------------
+# round 6 (seed C12-9): one NAME used twice in a formula -- as a free variable and as the bound index of a Sum (also of
+# two Sums, of nested Sums with the same index, and free inside the limit of another Sum).  The random grammar never
+# writes an index name outside its Sum, so "substitute the free occurrences only" was exercised by nobody: a
+# substitution that reaches under the binder (body or limit tuple) went unnoticed.  Every form is substituted with a
+# number / another variable of the formula / a fresh variable / a term / a swap / together with other names in one
+# mapping / completely, and evaluated at once on the other access paths of the same object.
+def _sm(i, lo, hi, body):
+    return ['sum', i, lo, hi, body]
+
+
+BOUND_FORMS = [
+    ('free+sum', b('add', v('k'), _sm('k', c(0), v('n'), b('mul', v('c'), v('k'))))),
+    ('free*sum-idx', b('mul', v('i'), _sm('i', c(0), c(2), ['idx', 'v', v('i')]))),
+    ('two-sums', b('sub', b('mul', _sm('k', c(0), c(2), b('mul', v('a'), v('k'))), v('k')), _sm('k', c(1), v('n'), v('k')))),
+    ('nested-same', b('add', _sm('k', c(0), v('n'), b('add', v('k'), _sm('k', c(0), c(1), b('mul', v('k'), v('a'))))), v('k'))),
+    ('in-other-limit', b('add', _sm('j', c(0), v('k'), b('mul', v('b'), v('j'))), _sm('k', c(0), c(2), b('mul', v('k'), v('a'))))),
+    ('floor-free', b('add', u('floor', b('div', v('k'), c(2))), _sm('k', c(0), v('n'), b('mul', v('k'), v('a'))))),
+    ('ite-free', ['ite', b('gt', v('k'), c(1)), _sm('k', c(0), c(2), b('add', v('k'), v('a'))), b('mul', v('k'), v('a'))]),
+    ('free-index-of-v', b('add', ['idx', 'v', v('k')], _sm('k', c(0), c(2), b('mul', ['idx', 'v', v('k')], v('k'))))),
+]
+BOUND_VALUES = {'k': 3, 'i': 2, 'n': 3, 'm': 1, 'a': F(-5, 2), 'b': F(3, 2), 'c': 2}
+
+
+def _bound_cases():
+    out = []
+    for name, e in BOUND_FORMS:
+        names = _names(e)
+        free = 'i' if 'i' in names and 'k' not in names else 'k'       # the name that is free AND bound
+        def scope(keep, ints=False):
+            sc = {}
+            for x in sorted(keep):
+                if x == 'v':
+                    sc[x] = {'ty': 'arri', 'v': ['4', '-1', '3', '7']}
+                elif x in ('k', 'i', 'j', 'n', 'm') or ints or BOUND_VALUES[x] == int(BOUND_VALUES[x]):
+                    sc[x] = tv('int', int(BOUND_VALUES[x]) if x in ('k', 'i', 'j', 'n', 'm', 'c') else 2)
+                else:
+                    sc[x] = tv('float', BOUND_VALUES[x])
+            return sc
+        others = sorted(names - {free, 'v', 'j'} - ({'k'} if free == 'i' else set()))
+        allv = sorted((names - {'j'}) - ({'k'} if free == 'i' else set()))
+        fam = 'det:bound:' + name
+
+        def part(subs, rest, path='in_scope', ints=False):
+            out.append({'kind': 'partial', 'expr': e, 'route': 'str', 'subs': subs, 'scope': scope(rest, ints),
+                        'path': path, 'family': fam})
+        rest = set(allv) - {free}
+        # a number for the free occurrence (two values: inside and outside the range of the index)
+        part({free: {'num': tv('int', 3)}}, rest)
+        part({free: {'num': tv('int', 1)}}, rest, 'exact', ints=True)
+        part({free: {'num': tv('npint', 2)}}, rest)
+        # another variable of the formula / a fresh one / a term
+        for y in [x for x in others if x in ('c', 'n', 'a')][:2]:
+            if y in ('c', 'n') or name not in ('in-other-limit', 'free-index-of-v'):
+                part({free: {'expr': v(y)}}, rest, ints=True)
+        part({free: {'expr': v('m')}}, rest | {'m'})
+        part({free: {'expr': b('add', v('m'), c(1))}}, rest | {'m'})
+        # swapped with another name; the other names first; all names in one mapping; a name of the body together with it
+        if 'n' in names:
+            part({free: {'expr': v('n')}, 'n': {'expr': v(free)}}, set(allv))
+        for y in others:
+            part({y: {'num': scope({y})[y]}}, set(allv) - {y})
+            part({y: {'num': scope({y})[y]}, free: {'num': tv('int', 2)}}, set(allv) - {y, free})
+            part({y: {'num': scope({y})[y]}, free: {'expr': b('mul', v('m'), c(2))}}, (set(allv) - {y, free}) | {'m'})
+        part({x: {'num': t} for x, t in scope(set(allv) - {'v'}).items()}, {'v'} & names)
+        # the bound name as an extra key only (nothing free to replace) is the old behaviour: kept as a control
+        out.append({'kind': 'partial', 'expr': e[3] if e[0] == 'b' and e[3][0] == 'sum' else e, 'route': 'str',
+                    'subs': {free: {'num': tv('int', 5)}}, 'scope': scope(rest), 'path': 'in_scope', 'family': fam})
+        # at once, every access path of one object (symfull substitutes the complete scope symbolically)
+        calls = []
+        for kv in (3, 0, 1):
+            sc = dict(scope(set(allv)))
+            sc[free] = tv('int', kv)
+            for p in ('in_scope', 'numeric', 'exact', 'symfull', 'serial'):
+                if p == 'symfull' and 'v' in sc:
+                    continue
+                if p == 'exact' and any(t['ty'] == 'float' for t in sc.values()):
+                    continue
+                calls.append({'path': p, 'scope': sc})
+        out.append({'kind': 'eval', 'expr': e, 'route': 'str', 'calls': calls, 'history': True, 'family': fam})
+    # ExpressionVector: the same substitution goes through another entry point
+    es = [e for nm, e in BOUND_FORMS if nm in ('free+sum', 'two-sums', 'floor-free')]
+    for subs in ({'k': {'num': tv('int', 3)}}, {'k': {'expr': v('n')}}, {'k': {'expr': v('m')}},
+                 {'k': {'num': tv('int', 2)}, 'a': {'num': tv('float', F(-5, 2))}}):
+        rest = {'a', 'c', 'n'} - set(subs) | ({'m'} if any(s.get('expr') == v('m') for s in subs.values()) else set())
+        sc = {x: tv('int', 2 if x == 'a' else BOUND_VALUES[x]) for x in sorted(rest)}
+        out.append({'kind': 'vecpartial', 'exprs': es, 'subs': subs, 'scope': sc, 'family': 'det:bound:vector'})
+    return out
+
+
 def det_cases(tier, usable):
     return _magn_cases(tier) + _api_cases(usable) + _floor_cases() + _cmp_cases() + _hist_cases(usable) + _name_cases(tier) + _reserved_cases() + \
-        _shape_cases() + _lenbc_cases() + _xobj_cases(tier)
+        _shape_cases() + _lenbc_cases() + _xobj_cases(tier) + _bound_cases()
